@@ -5,6 +5,8 @@
    This file is trusted glue: integer <-> extracted [Model.z] conversion and
    dispatch only; all decoding of cases is done inside the Coq model. *)
 open Model
+(* the extracted model may define its own [string] (Coq strings): keep OCaml's *)
+type string = Stdlib.String.t
 
 let rec pos_of_bits (s : string) (i : int) (acc : positive option) : positive option =
   (* s is a string of '0'/'1', most significant first *)
